@@ -538,11 +538,33 @@ func (c *scriptedCA) Sign(ctx context.Context, req *proto.SSHCertificateSigningR
 
 func buildCommand(run *GRun) string {
 	if run.Legacy {
-		return fmt.Sprintf("IFVer=6 SSHClientVersion=8.1 req=%s@%s HardKey=%v", run.ReqUser, run.ReqHost, run.HardKey)
+		cmd := fmt.Sprintf("IFVer=6 SSHClientVersion=8.1 req=%s@%s HardKey=%v", run.ReqUser, run.ReqHost, run.HardKey)
+		if run.Touch2SSH {
+			cmd += " Touch2SSH=true"
+		}
+		if run.Firefighter {
+			cmd += " IsFirefighter=true"
+		}
+		if run.SudoHosts != "" {
+			cmd += fmt.Sprintf(" TouchlessSudoHosts=%s TouchlessSudoTime=%d", run.SudoHosts, run.SudoTime)
+		}
+		return cmd
 	}
 	m := map[string]any{"ifVer": 7, "username": run.ReqUser, "hostname": run.ReqHost, "sshClientVersion": "8.1", "hardKey": run.HardKey}
 	if run.CAAlgo >= 0 {
 		m["caPubKeyAlgo"] = run.CAAlgo
+	}
+	if run.Touch2SSH {
+		m["touch2SSH"] = true
+	}
+	if run.Firefighter || run.SudoHosts != "" {
+		m["touchlessSudo"] = map[string]any{"isFirefighter": run.Firefighter, "hosts": run.SudoHosts, "time": run.SudoTime}
+	}
+	if run.SigAlgo != 0 {
+		m["signatureAlgo"] = run.SigAlgo
+	}
+	if run.Exts {
+		m["exts"] = map[string]any{"touchPolicy": 3, "isHWKey": true, "prins": []string{"root"}, "validity": 999999999, "keyid_version": 2}
 	}
 	b, _ := json.Marshal(m)
 	return string(b)
